@@ -434,6 +434,8 @@ def run(chk):
     address_cases(chk, a, ix, tested)
     from . import c02
     c02.xff_elements(chk, a, "A", "R4.forwarded_recorded")
+    # "whatever headers it sends": X-Forwarded-For is found under any capitalisation only because header names are matched case-insensitively
+    c02.header_table(chk, a, "A")
     address_identity(chk, a)
     dispatcher(chk, a)
     progs = {"A": a, "D": chk.use(core.load("D", fresh=(chk.tier == "thorough"))), "B": chk.use(core.load("B", fresh=(chk.tier == "thorough")))}
